@@ -215,7 +215,7 @@ T == Tests(n + m)
 Linearity == hist = <<>> => LET M == <<Mats(1), Mats(2)>> IN \A c \in {1, 2} :
    OpWith(M, c, c, c, T[n + m + 2]) = RVSub(RVScale(D(2), OpWith(M, c, c, c, T[n + m + 1])), OpWith(M, c, c, c, T[1]))
 \* the correction of a filtered velocity dof is zero; a mean-filtered pressure correction has dual mean zero
-FilterLaw == hist = <<>> => LET M == <<Mats(1), Mats(2)>> IN \A c \in {1, 2}, k \in 1..(n + m + 2) :
+FilterLaw == hist = <<>> /\ fsel # "none" => LET M == <<Mats(1), Mats(2)>> IN \A c \in {1, 2}, k \in 1..(n + m + 2) :
    LET x == OpWith(M, c, c, 3 - c, T[k]) IN
      /\ \A i \in FVOf(fsel, n) : x[i] = Zero
      /\ (FPKind(fsel) = "mean" => DDot(SubVec(x, n + 1, m), MeanD(m)) = Zero)
